@@ -252,6 +252,22 @@ off64_t _GD_Bzip2Seek(struct gd_raw_file_* file, off64_t offset,
       remaining -= n;
     }
   } else {
+    /* the target lies before the buffered window: restart the stream */
+    if (offset < ptr->base) {
+      ptr->bzerror = 0;
+      BZ2_bzReadClose(&ptr->bzerror, ptr->bzfile);
+      rewind(ptr->stream);
+      ptr->bzfile = BZ2_bzReadOpen(&ptr->bzerror, ptr->stream, 0, 0, NULL, 0);
+      if (ptr->bzerror != BZ_OK) {
+        file->error = ptr->bzerror;
+        dreturn("%i", -1);
+        return -1;
+      }
+      ptr->base = 0;
+      ptr->pos = ptr->end = 0;
+      ptr->stream_end = 0;
+    }
+
     /* seek forward the slow way */
     while (ptr->base + ptr->end < offset) {
       int n;
